@@ -97,7 +97,7 @@ func Datums(s *ref.Schema, full bool) []ref.Datum {
 		return []ref.Datum{ref.DBool(false), ref.DBool(true)}
 	case "int":
 		if s.Logical == "date" {
-			return pick([]ref.Datum{ref.DInt(0), ref.DInt(1), ref.DInt(-1), ref.DInt(18690), ref.DInt(-25567), ref.DInt(2932896)}, 0, 2, 3)
+			return pick([]ref.Datum{ref.DInt(0), ref.DInt(1), ref.DInt(-1), ref.DInt(18690), ref.DInt(-25567), ref.DInt(2932896), ref.DInt(-719162)}, 0, 2, 3)
 		}
 		return pick([]ref.Datum{ref.DInt(0), ref.DInt(1), ref.DInt(-1), ref.DInt(63), ref.DInt(64), ref.DInt(-64), ref.DInt(-65), ref.DInt(8192), ref.DInt(32767), ref.DInt(-32768), ref.DInt(32768), ref.DInt(math.MaxInt32), ref.DInt(math.MinInt32)}, 0, 2, -1)
 	case "long":
